@@ -300,4 +300,16 @@ PLANS = {
                     "too and reported as drift, not as a violation). B: damage below the model's abstraction - byte truncation, corruption, deletion - where the oracle is termination "
                     "without panic only.",
     ),
+    # not a listed property: growth of the specification beyond the list (DESIGN section 10); run with ./check extras
+    "_extras": dict(
+        sany=["DltMisc.tla", "trace/TraceCodes.tla", "trace/TraceStats.tla"],
+        steps=[
+            rec("codes", "misc", "TraceCodes", 300, 5000, 1, 2),
+            rec("stats", "pipeline", "TraceStats", 600, 20000, 2, 8),
+        ],
+        rule="service ids / control types: all 256 bytes; type widths, argument counts: seeded random; pipeline: seeded random well-formed streams x random filters",
+        explanation="Beyond the listed properties: service_id_lookup, ControlType::from_value / value, TypeInfo::type_width, PayloadContent::arg_count, LogLevel -> log::Level "
+                    "against tables in DltMisc; and the composed behaviour reader -> parse -> filter -> statistics: for well-formed streams read_message(filter) yields the marker "
+                    "exactly for the dropped messages, kept + dropped = number of messages = ECU total of collect_statistics.",
+    ),
 }
